@@ -240,12 +240,50 @@ func runK1(c *core.Ctx) {
 			if !lok || !retFalse || !strings.Contains(exprStr(be.X), "sp") {
 				return true
 			}
+			// the compared value may be the stack pointer plus a constant (through a local)
+			var k int64
+			lhs := ast.Unparen(be.X)
+			for depth := 0; depth < 3; depth++ {
+				if call, ok := lhs.(*ast.CallExpr); ok && len(call.Args) == 1 { // uintptr(...)
+					lhs = ast.Unparen(call.Args[0])
+					continue
+				}
+				if id, ok := lhs.(*ast.Ident); ok {
+					var def ast.Expr
+					ndef := 0
+					ast.Inspect(fd.Body, func(m ast.Node) bool {
+						if as, ok := m.(*ast.AssignStmt); ok && len(as.Lhs) == 1 && len(as.Rhs) == 1 {
+							if l, ok := as.Lhs[0].(*ast.Ident); ok && p.ObjectOf(l) == p.ObjectOf(id) {
+								def = as.Rhs[0]
+								ndef++
+							}
+						}
+						return true
+					})
+					if ndef == 1 {
+						lhs = ast.Unparen(def)
+						continue
+					}
+				}
+				if b2, ok := lhs.(*ast.BinaryExpr); ok && (b2.Op == token.ADD || b2.Op == token.SUB) {
+					if v, ok := p.ConstInt(b2.Y); ok {
+						if b2.Op == token.ADD {
+							k += v
+						} else {
+							k -= v
+						}
+						lhs = ast.Unparen(b2.X)
+						continue
+					}
+				}
+				break
+			}
 			gpos = ifs.Pos()
 			switch be.Op {
 			case token.GEQ:
-				admit = lim - ssz
+				admit = lim - k - ssz
 			case token.GTR:
-				admit = lim
+				admit = lim - k
 			}
 			return true
 		})
